@@ -92,7 +92,8 @@ def build(world, base):
         # a second name for the same inode
         p = os.path.join(root, l["path"])
         os.makedirs(os.path.dirname(p), exist_ok=True)
-        os.link(os.path.join(root, l["target"]), p)
+        if os.path.lexists(os.path.join(root, l["target"])):  # the shrinker may have dropped the target
+            os.link(os.path.join(root, l["target"]), p)
     for l in world.get("sentinel_links") or []:
         # a symlink outside the project that points into it (a second way to spell the root)
         p = os.path.join(sentinel, l["path"])
